@@ -83,6 +83,8 @@ def pools(ctx, count):
     wf = [gm[0] for gm in gen_games.mixed_games(rng, count, styles=("stopping", "exact"))
           if not c10.rewarded_player_cycle(gm[0])]
     wf += [gen_games.FIG55] + [gm[0] for gm in gen_games.pattern_games(2)]
+    # games whose two modes differ only at an orphan state (no losing state, so every reported probability is positive)
+    wf += [gm[0] for gm in gen_games.orphan_games(rng, max(6, count // 5))]
     tagged = []
     for g in wf:
         tagged.append((g, "well-formed"))
